@@ -19,6 +19,26 @@ Three tables are read from the source as it is NOW:
 
 The hand-written inventory (`Model/Session.lean`, `Site`, `Site.key`, `Site.path`) is checked against these
 tables by `decide` obligations in `Props/C16.lean`.
+
+Link resolution through helpers (robustness against helper extraction).  The lists above are what each function
+does in its OWN body ("direct").  In addition a link `(F, e)` that the inventory asks for (the string pairs of
+`Model/Session.lean`, read by `wanted_from_model`) and that is not direct is emitted for F when it can be *derived*
+from the source as it is now (`_effects(..., derive=True)`):
+
+* F calls `self.<h>(args)` / `cls.<h>(args)` where `<h>` is a method of F's own class, or `<g>(args)` where `<g>` is a
+  function of the same module or of `aioslsk/utils.py` (`cancel_task`): the body of the callee is read with its
+  parameters replaced by the text of the arguments (transitively, depth <= 6, no recursion); what the callee does
+  counts for F, under the `oncancel:` prefix when the call stands in an `except asyncio.CancelledError:` handler;
+* a loop / comprehension over a literal tuple / list / set (also through a local bound to one) is read once per
+  element (`for t in (a.x, a.y): t.cancel()` cancels `a.x` and `a.y`) besides the `<iterable>[*]` reading;
+* `a, b = x, y` binds element-wise; parameters of F are receivers of their own name.
+
+Only pairs the inventory asks for are added (after the direct effects of F), so on a tree whose links are all
+direct the table is exactly the direct table; a cancellation that is gone from F and from everything F calls is
+derived from nothing and the obligation `covered_all` fails as before.  In the same way a spawn site found in a
+helper `<Class>.<g>` that the inventory does not know is reported under the calling method `<Class>.<f>` of the same
+class when the inventory has a site with that key and the scan has none (`what is run` taken from the argument
+when the helper spawns a parameter).
 """
 from __future__ import annotations
 
@@ -51,6 +71,8 @@ FUNCTIONS = [
     ('user/manager.py', 'UserManager.stop'),
     ('user/manager.py', 'UserTrackingManager.stop'),
     ('user/manager.py', 'UserTrackingManager._on_state_changed'),
+    ('user/manager.py', 'UserTrackingManager._set_tracking_state'),
+    ('user/manager.py', 'UserTrackingManager._tracking_task'),
     ('search/manager.py', 'SearchManager.stop'),
     ('search/manager.py', 'SearchManager._on_state_changed'),
     ('server.py', 'ServerManager._on_state_changed'),
@@ -70,15 +92,18 @@ def _callee_name(func) -> str:
     return ''
 
 
+def _target_text(node) -> str:
+    """coroutine call -> dotted callee; partial(f, ...) -> f; otherwise unparse"""
+    if isinstance(node, ast.Call):
+        if _callee_name(node.func) == 'partial' and node.args:
+            return ast.unparse(node.args[0])
+        return ast.unparse(node.func)
+    return ast.unparse(node)
+
+
 def _what(call: ast.Call, kind: str) -> str:
     """What the spawned task runs (stable text)."""
-    def target(node):
-        # coroutine call -> dotted callee; partial(f, ...) -> f; otherwise unparse
-        if isinstance(node, ast.Call):
-            if _callee_name(node.func) == 'partial' and node.args:
-                return ast.unparse(node.args[0])
-            return ast.unparse(node.func)
-        return ast.unparse(node)
+    target = _target_text
     if kind == 'create_task':
         if not call.args:
             raise TranslateError(f'create_task without positional coroutine: {ast.unparse(call)}')
@@ -97,11 +122,15 @@ class _Scan(ast.NodeVisitor):
     def __init__(self, rel: str):
         self.rel = rel
         self.stack: list[str] = []
+        self.nodes: list = []
         self.sites: list[str] = []
+        self.where: list[tuple] = []        # per site: (class node | None, function node | None, kind, what)
 
     def _enter(self, node):
         self.stack.append(node.name)
+        self.nodes.append(node)
         self.generic_visit(node)
+        self.nodes.pop()
         self.stack.pop()
 
     visit_ClassDef = _enter
@@ -121,13 +150,50 @@ class _Scan(ast.NodeVisitor):
                     raise TranslateError(f'{self.rel}:{node.lineno}: create_task on `{recv}` (only asyncio.create_task '
                                          f'is known to the inventory)')
             qual = '.'.join(self.stack) or '<module>'
-            self.sites.append(f'{self.rel}|{qual}|{name}|{_what(node, name)}')
+            what = _what(node, name)
+            self.sites.append(f'{self.rel}|{qual}|{name}|{what}')
+            cls = self.nodes[0] if len(self.nodes) == 2 and isinstance(self.nodes[0], ast.ClassDef) else None
+            self.where.append((cls, self.nodes[1] if cls is not None else None, name, what))
         self.generic_visit(node)
 
 
-def scan_sites(repo: Path) -> list[str]:
+def _callers(rel: str, cls: ast.ClassDef, helper, kind: str, what: str, wanted: set[str], have: set[str],
+             seen: tuple = ()) -> list[str]:
+    """Keys `<rel>|<Class>.<f>|<kind>|<what>` the inventory asks for, for methods f of the class that reach the spawn in
+    `helper` through `self.<helper>(...)` calls (what is spawned is taken from the argument when it is a parameter)."""
+    res: list[str] = []
+    names = _params(helper)
+    if 'staticmethod' not in _decorators(helper) and names:
+        names = names[1:]
+    for m in cls.body:
+        if not _is_plain_function(m) or m is helper or m in seen:
+            continue
+        for node in ast.walk(m):
+            if not (isinstance(node, ast.Call) and isinstance(node.func, ast.Attribute) and
+                    isinstance(node.func.value, ast.Name) and node.func.value.id in ('self', 'cls') and
+                    node.func.attr == helper.name):
+                continue
+            w = what
+            if what in names:
+                idx = names.index(what)
+                arg = node.args[idx] if idx < len(node.args) and not any(isinstance(a, ast.Starred) for a in node.args) \
+                    else next((k.value for k in node.keywords if k.arg == what), None)
+                if arg is None:
+                    continue
+                w = _target_text(arg)
+            key = f'{rel}|{cls.name}.{m.name}|{kind}|{w}'
+            if key in wanted and key not in have:
+                if key not in res:
+                    res.append(key)
+            elif len(seen) < MAX_INLINE_DEPTH:
+                res += [k for k in _callers(rel, cls, m, kind, w, wanted, have, seen + (helper,)) if k not in res]
+    return res
+
+
+def scan_sites(repo: Path, wanted: set[str] = frozenset()) -> list[str]:
     base = repo / 'src' / 'aioslsk'
     out: list[str] = []
+    where: list[tuple] = []
     for p in sorted(base.rglob('*.py')):
         rel = p.relative_to(base).as_posix()
         if rel.startswith('protocol/'):
@@ -135,6 +201,15 @@ def scan_sites(repo: Path) -> list[str]:
         sc = _Scan(rel)
         sc.visit(ast.parse(p.read_text()))
         out += sc.sites
+        where += [(rel,) + w for w in sc.where]
+    if wanted:
+        # a spawn in a helper method the inventory does not know: the site of the method(s) that call the helper
+        have = set(out)
+        res = []
+        for k, (rel, cls, fn, kind, what) in zip(out, where):
+            moved = _callers(rel, cls, fn, kind, what, wanted, have) if k not in wanted and cls is not None else []
+            res += moved or [k]
+        out = res
     dup = {k for k in out if out.count(k) > 1}
     if dup:
         # two sites with the same key in one function: disambiguate by ordinal
@@ -194,42 +269,35 @@ def _find_function(tree: ast.Module, qual: str):
     return node
 
 
-def _effects(fn) -> list[str]:
-    """Ordered cancel/call effects of a function body."""
-    loopvars: dict[str, str] = {}       # name -> "<iterable>[*]"
-    locals_: dict[str, str] = {}        # name -> text it was assigned from
+def _params(fn) -> list[str]:
+    a = fn.args
+    return [x.arg for x in a.posonlyargs + a.args + a.kwonlyargs] + \
+        ([a.vararg.arg] if a.vararg else []) + ([a.kwarg.arg] if a.kwarg else [])
+
+
+def _is_plain_function(fn) -> bool:
+    return isinstance(fn, (ast.FunctionDef, ast.AsyncFunctionDef))
+
+
+def _decorators(fn) -> set[str]:
+    return {ast.unparse(d) for d in fn.decorator_list}
+
+
+_LITERALS = (ast.Tuple, ast.List, ast.Set)
+MAX_INLINE_DEPTH = 6
+
+
+def _effects(fn, cls: ast.ClassDef | None = None, module_funcs: dict | None = None, derive: bool = False) -> list[str]:
+    """Ordered cancel/call effects of a function body.
+
+    derive=False: what the body itself does (the table as it always was; a `.cancel()` through a parameter of the
+    function is `cancel:<parameter>...`).  derive=True: a superset that also reads through helper calls, literal
+    iterables and element-wise tuple assignments (see the module docstring); never raises on shapes it does not know
+    (it simply derives nothing from them)."""
     out: list[str] = []
-
-    def subst(node) -> str:
-        """Text of an expression with loop variables / walrus locals substituted."""
-        if isinstance(node, ast.Name):
-            if node.id in loopvars:
-                return loopvars[node.id]
-            if node.id in locals_:
-                return locals_[node.id]
-            return node.id
-        if isinstance(node, ast.Attribute):
-            return subst(node.value) + '.' + node.attr
-        if isinstance(node, ast.Call):
-            return subst(node.func) + '()'
-        return ast.unparse(node)
-
-    def resolvable(node) -> bool:
-        root = node
-        while isinstance(root, (ast.Attribute, ast.Call)):
-            root = root.value if isinstance(root, ast.Attribute) else root.func
-        return isinstance(root, ast.Name) and (root.id == 'self' or root.id in loopvars or root.id in locals_)
-
-    def bind_target(tgt, text):
-        if isinstance(tgt, ast.Name):
-            loopvars[tgt.id] = text
-        elif isinstance(tgt, (ast.Tuple, ast.List)):
-            for i, e in enumerate(tgt.elts):
-                bind_target(e, f'{text}.{i}')
-        else:
-            raise TranslateError(f'loop target of unknown shape: {ast.unparse(tgt)}')
-
     prefix = ['']
+    module_funcs = module_funcs or {}
+    methods = {n.name: n for n in (cls.body if cls is not None else []) if _is_plain_function(n)}
 
     def emit(e: str):
         out.append(prefix[0] + e)
@@ -237,101 +305,265 @@ def _effects(fn) -> list[str]:
     def is_cancelled_handler(h: ast.ExceptHandler) -> bool:
         return h.type is not None and ast.unparse(h.type) in ('asyncio.CancelledError', 'CancelledError')
 
-    def walk(node):
-        if isinstance(node, (ast.FunctionDef, ast.AsyncFunctionDef, ast.Lambda)) and node is not fn:
-            return      # nested definitions are not executed here
-        if isinstance(node, ast.Try):
-            for s_ in node.body:
-                walk(s_)
-            for h in node.handlers:
-                if is_cancelled_handler(h):
-                    if prefix[0]:
-                        raise TranslateError(f'{fn.name}: nested CancelledError handlers')
-                    prefix[0] = 'oncancel:'
-                    for s_ in h.body:
-                        walk(s_)
-                    prefix[0] = ''
-                else:
-                    for s_ in h.body:
-                        walk(s_)
-            for s_ in node.orelse + node.finalbody:
-                walk(s_)
-            return
-        if isinstance(node, ast.Assign) and len(node.targets) == 1 and isinstance(node.targets[0], (ast.Tuple, ast.List)):
-            walk(node.value)
-            names = [e.id for e in node.targets[0].elts if isinstance(e, ast.Name)]
-            val = node.value.value if isinstance(node.value, ast.Await) else node.value
-            waited = None
-            if isinstance(val, ast.Call) and ast.unparse(val.func) == 'asyncio.wait' and val.args and \
-                    isinstance(val.args[0], ast.Name):
-                waited = val.args[0].id
-            for i, nm in enumerate(names):
-                if waited is not None and len(names) == 2 and i == 1 and nm == waited:
-                    continue        # `done, X = await asyncio.wait(X, ...)`: X stays a subset of itself
-                if waited is not None and len(names) == 2 and i == 0 and waited in locals_:
-                    locals_[nm] = locals_[waited]      # `done` is a subset of X as well
-                    continue
-                locals_.pop(nm, None)
-                loopvars.pop(nm, None)
-            return
-        if isinstance(node, (ast.For, ast.AsyncFor)):
-            walk(node.iter)
-            bind_target(node.target, subst(node.iter) + '[*]')
-            for s in node.body + node.orelse:
-                walk(s)
-            return
-        if isinstance(node, (ast.ListComp, ast.SetComp, ast.GeneratorExp)):
-            for g in node.generators:
-                walk(g.iter)
-                bind_target(g.target, subst(g.iter) + '[*]')
-                for c in g.ifs:
-                    walk(c)
-            walk(node.elt)
-            return
-        if isinstance(node, ast.NamedExpr):
-            walk(node.value)
-            if isinstance(node.value, ast.Call) and _callee_name(node.value.func) == 'cancel':
-                locals_[node.target.id] = subst(node.value.func.value) + '.cancel()'
-            else:
-                locals_[node.target.id] = subst(node.value)
-            return
-        if isinstance(node, ast.Assign) and len(node.targets) == 1 and isinstance(node.targets[0], ast.Name):
-            walk(node.value)
-            locals_[node.targets[0].id] = subst(node.value)
-            return
-        if isinstance(node, ast.Call):
-            for a in node.args:
-                walk(a)
-            for k in node.keywords:
-                walk(k.value)
-            name = _callee_name(node.func)
-            if isinstance(node.func, ast.Attribute):
-                walk(node.func.value)
-                if name == 'cancel':
-                    if not resolvable(node.func.value):
-                        raise TranslateError(f'{fn.name}: cannot resolve the receiver of `{ast.unparse(node)}`')
-                    emit('cancel:' + subst(node.func.value))
-                elif ast.unparse(node.func) == 'asyncio.gather':
-                    if len(node.args) == 1 and isinstance(node.args[0], ast.Starred) and \
-                            isinstance(node.args[0].value, ast.Name) and \
-                            (node.args[0].value.id in locals_ or node.args[0].value.id in loopvars):
-                        emit('gather:' + subst(node.args[0].value))
-                elif resolvable(node.func.value) and name not in ('append', 'extend', 'info', 'debug', 'warning',
-                                                                  'values', 'items', 'keys', 'set', 'is_set'):
-                    emit('call:' + subst(node.func))
-            return
-        if isinstance(node, ast.Raise) and node.exc is None and prefix[0]:
-            emit('reraise')
-            return
-        for child in ast.iter_child_nodes(node):
-            walk(child)
+    def run(fn, bound: dict[str, str], stack: tuple):
+        loopvars: dict[str, str] = {}       # name -> "<iterable>[*]"
+        locals_: dict[str, str] = dict(bound)        # name -> text it was assigned from
+        literal: dict[str, ast.AST] = {}    # derive: local bound to a literal tuple / list / set
+        params = set(_params(fn)) - {'self', 'cls'}
 
-    for stmt in fn.body:
-        walk(stmt)
+        def subst(node) -> str:
+            """Text of an expression with loop variables / walrus locals substituted."""
+            if isinstance(node, ast.Name):
+                if node.id in loopvars:
+                    return loopvars[node.id]
+                if node.id in locals_:
+                    return locals_[node.id]
+                return node.id
+            if isinstance(node, ast.Attribute):
+                return subst(node.value) + '.' + node.attr
+            if isinstance(node, ast.Call):
+                return subst(node.func) + '()'
+            if derive and isinstance(node, ast.Await):
+                return subst(node.value)
+            return ast.unparse(node)
+
+        def resolvable(node, through_params: bool = False) -> bool:
+            root = node
+            while isinstance(root, (ast.Attribute, ast.Call)):
+                root = root.value if isinstance(root, ast.Attribute) else root.func
+            return isinstance(root, ast.Name) and (
+                root.id == 'self' or root.id in loopvars or root.id in locals_ or
+                ((through_params or derive) and root.id in params))
+
+        def unbind(name: str):
+            locals_.pop(name, None)
+            loopvars.pop(name, None)
+            literal.pop(name, None)
+
+        def bind_target(tgt, text):
+            if isinstance(tgt, ast.Name):
+                literal.pop(tgt.id, None)
+                loopvars[tgt.id] = text
+            elif isinstance(tgt, (ast.Tuple, ast.List)):
+                for i, e in enumerate(tgt.elts):
+                    bind_target(e, f'{text}.{i}')
+            elif derive:
+                return
+            else:
+                raise TranslateError(f'loop target of unknown shape: {ast.unparse(tgt)}')
+
+        def as_literal(it, depth: int = 0):
+            """derive: the literal tuple / list / set whose elements `it` ranges over: the literal itself, a local
+            bound to one, `list|tuple|set|sorted|reversed(<it>)`, `filter(f, <it>)`, `[x for x in <it> if ...]`."""
+            if depth > 4:
+                return None
+            if isinstance(it, _LITERALS):
+                return it
+            if isinstance(it, ast.Name):
+                return literal.get(it.id)
+            if isinstance(it, ast.Call) and isinstance(it.func, ast.Name) and not it.keywords:
+                if it.func.id in ('list', 'tuple', 'set', 'sorted', 'reversed') and len(it.args) == 1:
+                    return as_literal(it.args[0], depth + 1)
+                if it.func.id == 'filter' and len(it.args) == 2:
+                    return as_literal(it.args[1], depth + 1)
+            if isinstance(it, (ast.ListComp, ast.SetComp, ast.GeneratorExp)) and len(it.generators) == 1 and \
+                    isinstance(it.elt, ast.Name) and isinstance(it.generators[0].target, ast.Name) and \
+                    it.elt.id == it.generators[0].target.id:
+                return as_literal(it.generators[0].iter, depth + 1)
+            return None
+
+        def readings(it) -> list[str]:
+            """What a loop variable over `it` stands for: `<iterable>[*]`; derive: also each element of a literal."""
+            res = [subst(it) + '[*]']
+            if derive:
+                lit = as_literal(it)
+                if lit is not None:
+                    res += [subst(e) for e in lit.elts if not isinstance(e, ast.Starred)]
+            return res
+
+        def inline(node: ast.Call):
+            """derive: what the callee (method of the same class / function of the module) does counts here."""
+            f = node.func
+            callee = None
+            if isinstance(f, ast.Attribute) and isinstance(f.value, ast.Name) and f.value.id in ('self', 'cls') \
+                    and f.attr in methods:
+                callee = methods[f.attr]
+                names = _params(callee)
+                if 'staticmethod' not in _decorators(callee) and names:
+                    names = names[1:]
+            elif isinstance(f, ast.Name) and f.id in module_funcs and f.id not in locals_ and f.id not in loopvars:
+                callee = module_funcs[f.id]
+                names = _params(callee)
+            if callee is None or callee in stack or len(stack) >= MAX_INLINE_DEPTH:
+                return
+            if _decorators(callee) - {'staticmethod', 'classmethod'}:
+                return      # property / contextmanager / ...: not a plain call of the body
+            inner: dict[str, str] = {}
+            positional = [n for n in names if n not in {x.arg for x in callee.args.kwonlyargs}]
+            for name, a in zip(positional, node.args):
+                if isinstance(a, ast.Starred):
+                    break
+                if resolvable(a) or isinstance(a, _LITERALS):
+                    inner[name] = subst(a)
+            for k in node.keywords:
+                if k.arg in names and (resolvable(k.value) or isinstance(k.value, _LITERALS)):
+                    inner[k.arg] = subst(k.value)
+            run(callee, inner, stack + (callee,))
+
+        def walk(node):
+            if isinstance(node, (ast.FunctionDef, ast.AsyncFunctionDef, ast.Lambda)) and node is not fn:
+                return      # nested definitions are not executed here
+            if isinstance(node, ast.Try):
+                for s_ in node.body:
+                    walk(s_)
+                for h in node.handlers:
+                    if is_cancelled_handler(h) and not (derive and prefix[0]):
+                        if prefix[0]:
+                            raise TranslateError(f'{fn.name}: nested CancelledError handlers')
+                        prefix[0] = 'oncancel:'
+                        for s_ in h.body:
+                            walk(s_)
+                        prefix[0] = ''
+                    else:
+                        for s_ in h.body:
+                            walk(s_)
+                for s_ in node.orelse + node.finalbody:
+                    walk(s_)
+                return
+            if isinstance(node, ast.Assign) and len(node.targets) == 1 and isinstance(node.targets[0], (ast.Tuple, ast.List)):
+                walk(node.value)
+                elts = node.targets[0].elts
+                if isinstance(node.value, (ast.Tuple, ast.List)) and len(node.value.elts) == len(elts) and \
+                        not any(isinstance(e, ast.Starred) for e in list(elts) + list(node.value.elts)):
+                    # `a, b = x, y`: element-wise, the right-hand side is read before anything is bound
+                    texts = [(subst(v) if resolvable(v) else None) for v in node.value.elts]
+                    for t, txt in zip(elts, texts):
+                        if isinstance(t, ast.Name):
+                            unbind(t.id)
+                            if txt is not None:
+                                locals_[t.id] = txt
+                    return
+                names = [e.id for e in elts if isinstance(e, ast.Name)]
+                val = node.value.value if isinstance(node.value, ast.Await) else node.value
+                waited = None
+                if isinstance(val, ast.Call) and ast.unparse(val.func) == 'asyncio.wait' and val.args and \
+                        isinstance(val.args[0], ast.Name):
+                    waited = val.args[0].id
+                for i, nm in enumerate(names):
+                    if waited is not None and len(names) == 2 and i == 1 and nm == waited:
+                        continue        # `done, X = await asyncio.wait(X, ...)`: X stays a subset of itself
+                    if waited is not None and len(names) == 2 and i == 0 and waited in locals_:
+                        locals_[nm] = locals_[waited]      # `done` is a subset of X as well
+                        continue
+                    unbind(nm)
+                return
+            if isinstance(node, (ast.For, ast.AsyncFor)):
+                walk(node.iter)
+                for text in readings(node.iter):
+                    bind_target(node.target, text)
+                    for s in node.body + node.orelse:
+                        walk(s)
+                return
+            if isinstance(node, (ast.ListComp, ast.SetComp, ast.GeneratorExp)):
+                def gen(i: int):
+                    if i == len(node.generators):
+                        walk(node.elt)
+                        return
+                    g = node.generators[i]
+                    walk(g.iter)
+                    for text in readings(g.iter):
+                        bind_target(g.target, text)
+                        for c in g.ifs:
+                            walk(c)
+                        gen(i + 1)
+                gen(0)
+                return
+            if isinstance(node, ast.NamedExpr):
+                walk(node.value)
+                literal.pop(node.target.id, None)
+                if isinstance(node.value, ast.Call) and _callee_name(node.value.func) == 'cancel':
+                    locals_[node.target.id] = subst(node.value.func.value) + '.cancel()'
+                else:
+                    locals_[node.target.id] = subst(node.value)
+                return
+            if isinstance(node, ast.Assign) and len(node.targets) == 1 and isinstance(node.targets[0], ast.Name):
+                walk(node.value)
+                locals_[node.targets[0].id] = subst(node.value)
+                literal.pop(node.targets[0].id, None)
+                if derive and as_literal(node.value) is not None:
+                    literal[node.targets[0].id] = as_literal(node.value)
+                return
+            if isinstance(node, ast.Call):
+                for a in node.args:
+                    walk(a)
+                for k in node.keywords:
+                    walk(k.value)
+                name = _callee_name(node.func)
+                if isinstance(node.func, ast.Attribute):
+                    walk(node.func.value)
+                    if name == 'cancel':
+                        if resolvable(node.func.value, through_params=True):
+                            emit('cancel:' + subst(node.func.value))
+                        elif not derive:
+                            raise TranslateError(f'{fn.name}: cannot resolve the receiver of `{ast.unparse(node)}`')
+                    elif ast.unparse(node.func) == 'asyncio.gather':
+                        if len(node.args) == 1 and isinstance(node.args[0], ast.Starred) and \
+                                isinstance(node.args[0].value, ast.Name) and \
+                                (node.args[0].value.id in locals_ or node.args[0].value.id in loopvars):
+                            emit('gather:' + subst(node.args[0].value))
+                    elif resolvable(node.func.value) and name not in ('append', 'extend', 'info', 'debug', 'warning',
+                                                                      'values', 'items', 'keys', 'set', 'is_set'):
+                        emit('call:' + subst(node.func))
+                if derive:
+                    inline(node)
+                return
+            if isinstance(node, ast.Raise) and node.exc is None and prefix[0]:
+                emit('reraise')
+                return
+            for child in ast.iter_child_nodes(node):
+                walk(child)
+
+        for stmt in fn.body:
+            walk(stmt)
+
+    run(fn, {}, (fn,))
     return out
 
 
-def scan_effects(repo: Path) -> list[tuple[str, str]]:
+def _find_class(tree: ast.Module, qual: str):
+    parts = qual.split('.')
+    if len(parts) < 2:
+        return None
+    node = _find_function(tree, '.'.join(parts[:-1]))
+    return node if isinstance(node, ast.ClassDef) else None
+
+
+def _module_functions(base: Path, tree: ast.Module, cache: dict) -> dict:
+    """Plain functions a body can call by bare name: those of its module and of aioslsk/utils.py."""
+    if 'utils.py' not in cache:
+        cache['utils.py'] = ast.parse((base / 'utils.py').read_text()) if (base / 'utils.py').exists() else ast.Module([], [])
+    funcs = {n.name: n for n in cache['utils.py'].body if _is_plain_function(n)}
+    funcs.update({n.name: n for n in tree.body if _is_plain_function(n)})
+    return funcs
+
+
+def wanted_from_model(model: Path | None) -> tuple[set[tuple[str, str]], set[str]]:
+    """The (function, effect) links and the site keys the hand-written inventory asks for: every string pair
+    `("<file>|<function>", "<effect>")` and every string `"<file>|<function>|<kind>|<what>"` of Model/Session.lean.
+    Without the file nothing is asked for and the tables are the direct ones."""
+    import re
+    if model is None or not model.exists():
+        return set(), set()
+    text = model.read_text()
+    lit = r'"((?:[^"\\\n]|\\.)*)"'
+    unq = lambda x: x.replace('\\"', '"').replace('\\\\', '\\')
+    links = {(unq(a), unq(b)) for a, b in re.findall(r'\(\s*' + lit + r'\s*,\s*' + lit + r'\s*\)', text)
+             if a.count('|') == 1}
+    keys = {unq(k) for k in re.findall(lit, text) if k.count('|') == 3}
+    return links, keys
+
+
+def scan_effects(repo: Path, wanted: set[tuple[str, str]] = frozenset()) -> list[tuple[str, str]]:
     base = repo / 'src' / 'aioslsk'
     out: list[tuple[str, str]] = []
     cache: dict[str, ast.Module] = {}
@@ -342,8 +574,18 @@ def scan_effects(repo: Path) -> list[tuple[str, str]]:
         if fn is None:
             # a function that no longer exists has no effects; the obligations that need it then fail
             continue
-        for e in _effects(fn):
-            out.append((f'{rel}|{qual}', e))
+        key = f'{rel}|{qual}'
+        direct = _effects(fn)
+        for e in direct:
+            out.append((key, e))
+        asked = {e for f, e in wanted if f == key} - set(direct)
+        if asked:
+            # links the inventory asks of this function that its own body does not have: through helpers?
+            derived = _effects(fn, cls=_find_class(cache[rel], qual),
+                               module_funcs=_module_functions(base, cache[rel], cache), derive=True)
+            for e in dict.fromkeys(derived):
+                if e in asked:
+                    out.append((key, e))
     return out
 
 
@@ -351,10 +593,13 @@ def _lean_str(s: str) -> str:
     return '"' + s.replace('\\', '\\\\').replace('"', '\\"') + '"'
 
 
-def generate(repo: Path, out_path: Path) -> str:
-    sites = scan_sites(repo)
+def generate(repo: Path, out_path: Path, model: Path | None = None) -> str:
+    if model is None:
+        model = out_path.parent.parent / 'Model' / 'Session.lean'
+    wanted_links, wanted_keys = wanted_from_model(model)
+    sites = scan_sites(repo, wanted_keys)
     services = scan_services(repo)
-    effects = scan_effects(repo)
+    effects = scan_effects(repo, wanted_links)
     lines = [
         '/-! GENERATED by translate/task_sites.py from /repo — do not edit. -/',
         'namespace AioslskVerif.Generated.TaskSites',
